@@ -362,6 +362,17 @@ def children(prefix_len: int, trace: list, bound: int | None) -> list[list]:
 _RUN1 = None
 
 
+def _safe_run1(run1, p, t):
+    """An oracle / harness exception is never a silent pass and never aborts the exploration."""
+    try:
+        return run1(p, t)
+    except Exception:
+        import traceback
+
+        t.violation({"invariant": "harness-error", "where": traceback.format_exc().strip().splitlines()[-1][:120]}, {"schedule": p}, traceback.format_exc())
+        return []
+
+
 def _subtree(prefix, bound, cap):
     """DFS of the subtree rooted at ``prefix``; returns a Tally (check results are recorded by run1)."""
     t = Tally()
@@ -369,7 +380,7 @@ def _subtree(prefix, bound, cap):
     n = 0
     while stack:
         p = stack.pop()
-        trace = _RUN1(p, t)
+        trace = _safe_run1(_RUN1, p, t)
         n += 1
         stack.extend(children(len(p), trace, bound))
         if cap and n >= cap:
@@ -392,7 +403,7 @@ def explore(run1: Callable[[list, Tally], list], bound: int | None, tally: Tally
     done_seq = 0
     while pending and len(pending) < jobs * 6 and done_seq < 200:
         p = pending.pop(0)
-        trace = run1(p, tally)
+        trace = _safe_run1(run1, p, tally)
         done_seq += 1
         pending.extend(children(len(p), trace, bound))
     tally.count("schedules", done_seq)
